@@ -2681,18 +2681,23 @@ class Interpreter(InterpreterBase, HoldableObject):
                           follow_symlinks: T.Optional[bool] = None) -> list[build.Data]:
         install_dir_name = install_dir.optname if isinstance(install_dir, P_OBJ.OptionString) else install_dir
         dirs = collections.defaultdict(list)
+        renames = collections.defaultdict(list)
         if preserve_path:
-            for file in sources:
+            for i, file in enumerate(sources):
                 dirname = os.path.dirname(file.fname)
                 dirs[dirname].append(file)
+                if rename is not None:
+                    renames[dirname].append(rename[i])
         else:
             dirs[''].extend(sources)
+            if rename is not None:
+                renames[''].extend(rename)
 
         ret_data: list[build.Data] = []
         for childdir, files in dirs.items():
             d = build.Data(files, os.path.join(install_dir, childdir), os.path.join(install_dir_name, childdir),
-                           install_mode, self.subproject, rename, tag, install_data_type,
-                           follow_symlinks)
+                           install_mode, self.subproject, renames[childdir] if rename is not None else None,
+                           tag, install_data_type, follow_symlinks)
             ret_data.append(d)
 
         if not self.is_internal_machine(MachineChoice.HOST):
